@@ -46,7 +46,7 @@ def splittings(rng, text, k):
 class C12(Property):
     id = "C12"
     design_ref = "DESIGN.md section 5 / C12"
-    theorems_note = ("chunks_concat (for a view with character-boundary ends the chunks never panic and concatenate to exactly the byte slice "
+    theorems_note = ("slice_open_ended (a.., ..b, .. are the closed slices with the missing end filled in), chunks_concat (for a view with character-boundary ends the chunks never panic and concatenate to exactly the byte slice "
                      "of the node's text), and on chunk lists: contains_char / find_char / char_at / eq_str agree with the concatenated "
                      "string, eq_view (the two-pointer zip_texts) agrees with string equality for ANY two chunkings, slice composition")
     assumptions = [
